@@ -23,23 +23,24 @@ RULE = ('A physically consistent trajectory (own closed-form integration of a sm
         'geodesic distance (IMU variants: tilt distance) to the clean run of the same filter stays below rho_f (constants calibrated on the unchanged '
         'tree, DESIGN.md section 3/C13). Non-trivial: a window that starts after sample 20, ends at least W_f before the end and '
         'zeroes a sensor the architecture uses; distinct = case hash.')
-ASSUMPTIONS = ['recovery horizon W_f and tolerance rho_f per filter are calibrated constants (>= 10x margin over the worst observed)',
+ASSUMPTIONS = ['recovery horizon W_f and tolerance rho_f per filter (and per class: gyroscope zeroed too / correcting sensors only) are calibrated constants (>= 4x margin over the worst observed in 19000 schedules)',
                'a filter that corrects at a bounded rate (Madgwick: beta rad/s) is given the time that rate needs for the worst frozen-gyro error']
-REQUIRED_LABELS = ['dropout:sensor=acc', 'dropout:sensor=mag', 'dropout:sensor=gyr', 'dropout:windows>=2', 'dropout:params=custom']
+REQUIRED_LABELS = ['dropout:long_window', 'dropout:gyro_bias=known', 'dropout:gyro_bias=unknown', 'dropout:sensor=acc', 'dropout:sensor=mag', 'dropout:sensor=gyr', 'dropout:windows>=2', 'dropout:params=custom']
 
 DT = 0.01
 # (W_f samples after the last window, rho_f rad) -- calibrated, see DESIGN.md
 RECOVERY = {
-    # key: (W_f, rho_f) -- worst distance observed on the unchanged tree over 8 seeds x 1500 schedules, W_f = 300, in comments
-    'Madgwick-IMU': (300, 1e-2), 'Madgwick-MARG': (300, 1e-2),       # 1.2e-3 / 1.6e-3 (limit cycle of the normalised gradient step)
-    'Mahony-IMU': (300, 5e-2), 'Mahony-MARG': (300, 7e-2),           # 5.2e-3 / 1.4e-2 (bias integrator disturbed by a frozen gyro)
-    'EKF-IMU': (300, 3e-2), 'EKF-MARG': (300, 3e-2),                 # 5.5e-3 / 5.8e-3
-    'UKF-IMU': (300, 5e-2),                                          # see known findings (does not recover from a gyro dropout)
-    'AQUA-IMU': (300, 2e-2), 'AQUA-MARG': (300, 4e-2),               # 1.8e-3 / 8.0e-3
-    'Fourati-MARG': (300, 3e-1),                                     # 6.8e-2 (its correction is proportional to the measured rate)
-    'ROLEQ-MARG': (300, 1e-6),                                       # 1.4e-9
-    'FKF-MARG': (300, 7e-2),                                         # 1.4e-2
-    'Complementary-IMU': (300, 1e-9), 'Complementary-MARG': (300, 1e-9),   # 1e-15
+    # key: (W_f, rho_f when a gyroscope sample was zeroed too, rho_f when only correcting sensors were zeroed).  In comments: the worst
+    # distances observed on the unchanged tree over 16 seeds x 1200 schedules (tools/calibrate_c13.py), windows up to 200 samples.
+    'Madgwick-IMU': (300, 2.5e-2, 2.5e-2), 'Madgwick-MARG': (300, 2.5e-2, 2.5e-2),   # limit cycle of the normalised gradient step, scaled with the gain below
+    'Mahony-IMU': (300, 5e-2, 2e-2), 'Mahony-MARG': (300, 7e-2, 1.5e-2),     # 6.5e-3 / 2.8e-3;  1.2e-2 / 2.4e-3 (bias integrator disturbed by a frozen gyro)
+    'EKF-IMU': (300, 5e-2, 5e-2), 'EKF-MARG': (300, 1e-1, 1e-1),             # 6.1e-3 / 1.0e-2;  2.4e-2 / 2.4e-2
+    'UKF-IMU': (300, 5e-2, 5e-2),                                            # 1.8e-3 (an all-zero accelerometer sample is refused)
+    'AQUA-IMU': (300, 2e-2, 1e-7), 'AQUA-MARG': (300, 4e-2, 1e-7),           # 2.4e-3 / 2.2e-10;  9.3e-3 / 1.1e-9
+    'Fourati-MARG': (300, 3e-1, 3e-1),                                       # 5.7e-2 (its correction is proportional to the measured rate)
+    'ROLEQ-MARG': (300, 1e-5, 1e-9),                                         # 5.1e-7 / 1.2e-14
+    'FKF-MARG': (300, 7e-2, 7e-2),                                           # 9.9e-3
+    'Complementary-IMU': (300, 1e-9, 1e-9), 'Complementary-MARG': (300, 1e-9, 1e-9),   # 1e-15 plus gain**W_f (added below)
 }
 
 
@@ -100,8 +101,15 @@ def _case(tier):
             start = draw(st.one_of(st.integers(1, n-2), st.integers(21, max(22, n-450))))
             length = draw(st.integers(1, 30))
             sensors = draw(st.sampled_from([['acc'], ['mag'], ['gyr'], ['acc', 'mag'], ['acc', 'gyr'], ['mag', 'gyr'], ['acc', 'mag', 'gyr'], ['acc'], ['mag']]))
+            if 'gyr' not in sensors and draw(st.integers(0, 3)) == 0:
+                length = draw(st.integers(31, 200))      # long outage of a correcting sensor (the gyroscope keeps propagating)
+                start = min(start, max(1, n - 300 - length - 1))
             windows.append({'start': start, 'length': length, 'sensors': sensors})
+        # constant gyroscope bias (only rendered for the filter that estimates one: Mahony), known to the user (b0) or not
+        b3 = st.lists(gen.fl(-0.05, 0.05), min_size=3, max_size=3)
+        bias = draw(st.one_of(st.none(), b3, b3, b3))
         return {'spec': i, 'preset': draw(st.integers(0, 3)), 'seed': draw(st.integers(0, 2**31-1)), 'n': n, 'windows': windows,
+                'gyr_bias': bias, 'bias_known': draw(st.booleans()),
                 'frame': draw(st.sampled_from(['NED', 'ENU'])), 'dip': draw(gen.fl(-70.0, 70.0)), 'np_seed': draw(st.integers(0, 2**31-1))}
     return build()
 
@@ -123,12 +131,16 @@ def evaluate(case, ctx, calibrate=None):
     if key not in RECOVERY:
         ctx.label('not_a_corrective_filter')
         return
-    W_f, rho_f = RECOVERY[key]
+    W_f, rho_gyr, rho_nogyr = RECOVERY[key]
     frame = case['frame'] if case['frame'] in spec.frames else spec.frames[0]
     dip = float(case['dip'])
     n = int(case['n'])
     Qt, Wt = trajectory(int(case['seed']), n)
     gyr, acc, mag = render(spec, Qt, Wt, frame, dip)
+    bias = case.get('gyr_bias') if spec.name == 'Mahony' else None
+    if bias is not None:
+        gyr = gyr + np.array(bias, dtype=float)[None, :]
+        ctx.label('gyro_bias=known' if case.get('bias_known') else 'gyro_bias=unknown')
     fg, fa, fm = gyr.copy(), acc.copy(), mag.copy()
     last_end, used, nontriv = 0, False, False
     uses = {'acc': True, 'gyr': True, 'mag': spec.arch == 'MARG'}
@@ -147,16 +159,21 @@ def evaluate(case, ctx, calibrate=None):
     ctx.label(f'filter={key}')
     ctx.nt(nontriv)
     seed = int(case['np_seed'])
+    rho_f = rho_gyr if any('gyr' in w['sensors'] for w in case['windows']) else rho_nogyr
     presets = PRESETS[spec.name]
     preset = presets[int(case.get('preset', 0)) % len(presets)]
+    if bias is not None and case.get('bias_known'):
+        preset = dict(preset, b0=[float(b) for b in bias])
     ctx.label('params=default' if not preset else 'params=custom')
+    if any(int(w['length']) > 30 for w in case['windows']):
+        ctx.label('long_window')
     if spec.name == 'Complementary':
         # linear blend with gain g: a disturbance of at most 0.2 rad decays like g**k
         rho_f = rho_f + 0.2*float(preset.get('gain', 0.9))**W_f
     if spec.name == 'Madgwick' and preset:
         # two runs of the fixed-length gradient step chatter independently with amplitude ~ beta*dt each
         beta = max(v for k_, v in preset.items() if k_.startswith('gain'))
-        rho_f = max(rho_f, 6.0*beta*DT)
+        rho_f = max(rho_f, 12.0*beta*DT)
     tag = key + (f'[{frame}]' if len(spec.frames) > 1 else '')
     which = '+'.join(sorted({sn for w in case['windows'] for sn in w['sensors'] if uses[sn]})) or 'unused'
     try:
@@ -201,7 +218,7 @@ def evaluate(case, ctx, calibrate=None):
         d = np.array([F.attitude_error(spec, faulty[t], clean[t], frame) for t in range(t0, n)])
         worst = float(d.max())
         if calibrate is not None:
-            calibrate.append((key, which, worst))
+            calibrate.append((key, which, worst, rho_f))
         ctx.target(worst/rho_f, 'recovery')
         if worst > rho_f:
             ctx.fail(f'{tag}|does_not_return_to_clean_run|{which}',
